@@ -151,7 +151,18 @@ def plan_scenario(job):
     if sc["spec"]["workers"] >= 2 and t >= 4:
         # a step so close to the end that the jobs in flight cover all the steps that are left
         kinds["step-before-the-last"] = t - 1
+    # what the restart record must list after each completed step of this lifetime: the jobs handed out before that step's result
+    # was treated and not yet treated themselves (the job picked after it is not recorded: it is re-drawn from the restored stream)
+    snap, cur, tt = {}, {}, 0
+    for ev in r0["trace"]:
+        if ev[0] == "prep":
+            cur[ev[1]] = [[int(e) for e in ev[2]], [str(p) for p in ev[3]]]
+        elif ev[0] == "treat":
+            tt += 1
+            cur.pop(ev[1], None)
+            snap[tt] = [list(v) for v in cur.values()]
     for kind, target in sorted(kinds.items()):
+        sc = dict(sc, _inflight={str(k): snap[k] for k in (target - 1, target) if k in snap}, _cstep0=r0.get("cstep_start"))
         d, restarted = prepare(sc)
         try:
             r = run_plain(d, seg_of(sc, sc["N"], restart=restarted, fault={"target": target, "crash_at": None, "phase": "treat"}))
@@ -204,6 +215,13 @@ def crash_job(job):
             cstep_disk = cfg["current"]["cstep"]
         except Exception:  # noqa: BLE001
             cfg, cstep_disk = None, None
+        # the record on disk lists exactly the jobs that were in flight when that file was written
+        if locked_on_disk is not None and sc.get("_inflight") and sc.get("_cstep0") is not None and cstep_disk is not None:
+            exp = sc["_inflight"].get(str(cstep_disk - sc["_cstep0"]))
+            if exp is not None:
+                want = sorted((tuple(int(e) for e in e_), tuple(str(p) for p in p_)) for e_, p_ in exp)
+                if sorted(locked_on_disk) != want:
+                    rec.violation(f"C08:restart-record-differs-from-the-jobs-in-flight@{where}", f"restart file of step {cstep_disk} lists {sorted(locked_on_disk)}, in flight were {want}", replay)
         # ---- recovery (optionally crashing again at its first completed step)
         # the recovery runs on to more steps than the killed run was asked for - or, for a crash close to the end, to just
         # those (the jobs in flight then cover all the steps that are left)
